@@ -1,7 +1,7 @@
 """C10 — directory operations keep the namespace exact at every directory size (Hypothesis op sequences through debugfs vs a reference model)."""
 import os, json, shutil, re, random
 from hypothesis import strategies as st
-from vlib import hyp, fsgen, core, tool, run as vrun, e4ref
+from vlib import hyp, fsgen, core, tool, run as vrun, e4ref, collide
 LEVEL = 'exploration'
 CONFIGS = [
     dict(name='ext4-1k-indexed', fstype='ext4', bs=1024, blocks=32768, features=['^has_journal'], extra=['-N', '7000']),
@@ -18,7 +18,7 @@ CONFIGS = [
     dict(name='ext4-1k-journal-csum', fstype='ext4', bs=1024, blocks=32768, features=[], extra=['-N', '7000']),
 ]
 HASHES = [None, 'legacy', 'half_md4', 'tea']
-OPS = ['mkdir', 'create', 'bulk', 'bulk', 'bulk', 'link', 'rm', 'rm', 'rmdir', 'symlink', 'mknod', 'bulkrm', 'bulkrm', 'fsckD', 'fsckD', 'expand_dir', 'dup', 'rmdir-nonempty', 'rm-missing', 'write-small', 'bigdir']
+OPS = ['mkdir', 'create', 'bulk', 'bulk', 'bulk', 'link', 'rm', 'rm', 'rmdir', 'symlink', 'mknod', 'bulkrm', 'bulkrm', 'fsckD', 'fsckD', 'expand_dir', 'dup', 'rmdir-nonempty', 'rm-missing', 'write-small', 'bigdir', 'collide', 'collide']
 PREFIX = ['', '', '', '.', '..', '...x', '~', '+', '@', 'A', '_']
 RULE = ('Hypothesis draws (configuration out of %d: linear/indexed/inline-data directories x metadata_csum x filetype x dir_nlink x large_dir x 1k/2k/4k; hash algorithm legacy/half_md4/tea x signed/unsigned; 2-12 operations out of %s '
         'with names of 1-255 bytes incl. names starting with dots, bulk creations of up to 700 names and strided bulk removals, on a tree of several directories); the reference model is a dict per directory plus link counts. '
@@ -146,6 +146,16 @@ def body(case, env):
             # enough long names for a two-level htree on 1k/2k blocks, indexed right away by e2fsck -D; later operations then work on the deep index
             if len(ents) > 800 or cfg['bs'] > 2048: continue
             names = [M.newname(a, 220 + b % 30) for _ in range(700)]; cmds = [('write %s %s' % (empty, n), mk_file(n)) for n in names]; label = 'bigdir(700 names of %d bytes + e2fsck -D)' % len(names[0])
+        elif op == 'collide':
+            # names whose hashes collide (found with the independent dirhash for this filesystem's algorithm, seed and signedness) plus a varying number of fillers, indexed right away by
+            # e2fsck -D: now and then a colliding pair ends up as the last entry of one leaf and the first of the next, which the index has to mark with the continuation bit
+            if len(ents) > 900: continue
+            try:
+                fsx = e4ref.FS(img); prs = collide.pairs(fsx.def_hash, list(fsx.hash_seed), bool(fsx.sflags & 2)); fsx.f.close()
+            except Exception: continue
+            cn = [n.decode('latin-1') for pr in prs for n in pr if n.decode('latin-1') not in ents]
+            names = cn + [M.newname(a, 6 + b % 40) for _ in range(15 + (a * 7 + b) % 120)]
+            cmds = [('write %s %s' % (empty, n), mk_file(n)) for n in names]; label = 'collide(%d colliding names + %d fillers + e2fsck -D)' % (len(cn), len(names) - len(cn))
         elif op == 'link':
             if not files: continue
             src = files[a % len(files)]; k, i = ents[src]
@@ -207,7 +217,7 @@ def body(case, env):
         if nfail and op not in ('dup', 'rmdir-nonempty', 'rm-missing'): classes.append('op-refused:' + op)
         if op in ('dup', 'rmdir-nonempty', 'rm-missing') and nfail != len(cmds): return fail('precondition-not-enforced', op=label, debugfs_said=r.out[-300:])
         if r.rc is None or r.rc >= 90: return fail('debugfs-crash-or-sanitizer', rc=r.rc, sig=r.sig, out=r.out[-400:])
-        if op == 'bigdir':
+        if op in ('bigdir', 'collide'):
             rr = t.fsck(img, '-fyD', cpu=120)
             if rr.rc not in (0, 1): return fail('e2fsck-D-failed', rc=rr.rc, says=tool.fsck_lines(rr.out, 8))
         bad = check_dirs(touched)
